@@ -219,12 +219,17 @@ class Gen:
                                       {"name": rng.choice(self.tasks() or [name])}]))
         self.emit(d)
 
+    @staticmethod
+    def wname(k):
+        """W1, W10, W2, W20, ...: every second name extends the previous one (names that are prefixes of one another)"""
+        return f"W{(k + 1) // 2}" + ("0" if k % 2 == 0 else "")
+
     def g_worker(self):
         rng = self.rng
         self.nw += 1
         cost = rng.choice([("const", 0), ("const", 0), ("const", 1), ("const", 5), ("linear", 2, 3), ("linear", 0, 4)] +
                           ([] if self.simple else [("poly", [1, 0, 2])]))
-        self.emit({"op": "worker", "name": f"W{self.nw}", "prod": rng.choice([1, 1, 1, 0, 2, 3, 2, 4, 6]), "cost": cost})
+        self.emit({"op": "worker", "name": self.wname(self.nw), "prod": rng.choice([1, 1, 1, 0, 2, 3, 2, 4, 6]), "cost": cost})
 
     def g_cumulative(self):
         rng = self.rng
@@ -592,8 +597,34 @@ class Gen:
                 return True
         return False
 
+    def gap_pair(self):
+        """two elements that sort the busy intervals of one worker (ResourceNonDelay, ResourceTasksDistance,
+        IndicatorResourceIdle), the first of them optional more often than not: the second must not depend on what an
+        unapplied first one asserted"""
+        rng = self.rng
+        two = [n for n in self.plain_workers() if self.nbusy(n) >= 2]
+        if not two:
+            return False
+        r = rng.choice(two)
+
+        def gap():
+            if rng.random() < 0.35:
+                return ("nonDelay", r)
+            return ("distance", r, rng.choice([0, 1, 2, 4]), None, rng.choice(["min", "max", "exact"]))
+        d1 = {"op": "constraint", "c": gap()}
+        if rng.random() < 0.6:
+            d1["optional"] = True
+        self.emit(d1)
+        if rng.random() < 0.6:
+            self.emit({"op": "constraint", "c": gap()})
+        else:
+            self.emit({"op": "indicator", "i": ("idle", r)})
+        return True
+
     def g_resc(self):
         rng = self.rng
+        if rng.random() < 0.12 and not self.frag and self.gap_pair():
+            return
         if rng.random() < 0.5 and not any(self.nbusy(n) >= 2 for n in self.plain_workers()):
             if self.second_assignment():
                 return
@@ -637,9 +668,20 @@ class Gen:
                      in_period() if rng.random() < 0.8 else [(a, min(b_, a + 3)) for a, b_ in dict.fromkeys(ivs())][:2],
                      period, rng.choice([0, 0, 2, 7]), rng.choice([0, 0, 1, 3]),
                      rng.choice([None, None, self.H(), 15])),
-            lambda: ("periodicallyInterrupted", rp, in_period(), period, rng.choice([0, 0, 2, 7]), rng.choice([0, 0, 1, 3]),
-                     rng.choice([None, None, self.H(), 15])),
+            lambda: periodically_interrupted(),
         ]
+
+        def periodically_interrupted():
+            # a quarter of the time a period no longer than a fixed-duration task on that worker: the task then spans
+            # whole repetitions, and the condition must still be about its whole length, not the remainder
+            nonlocal period
+            durs = [x["kind"][1] for x in self.script if x["op"] == "task" and x["kind"][0] == "fixed" and x["kind"][1] >= 2
+                    and x["name"] in self.real.tasks and rp in {y.name for y in self.real.tasks[x["name"]]._required_resources}] \
+                if rp in self.real.workers else []
+            if durs and rng.random() < 0.25:
+                period = max(2, rng.choice(durs) - rng.choice([0, 0, 1]))
+            return ("periodicallyInterrupted", rp, in_period(), period, rng.choice([0, 0, 2, 7]), rng.choice([0, 0, 1, 3]),
+                    rng.choice([None, None, self.H(), 15]))
         if two or rng.random() < 0.15:
             forms += [lambda: ("nonDelay", r2),
                       lambda: ("distance", r2, rng.choice([0, 1, 2, 4]), rng.choice([None, None, ivs()]), self.count_kind())]
@@ -688,9 +730,37 @@ class Gen:
         self.emit({"op": "constraint", "c": ("loadBuffer" if load else "unloadBuffer", rng.choice(free), bn,
                                              rng.choice([1, 1, 2, 3, 5]))})
 
+    def buffer_extremum(self):
+        """a buffer that is loaded by one task and unloaded by another (the loading declared first half of the time,
+        a larger unloaded quantity more often than not), then the minimum or maximum of its level: the extremum ranges over
+        the levels after *every* change, whatever the declared kind of the access the level variable is named after"""
+        rng = self.rng
+        ts = self.tasks()
+        if len(ts) < 2:
+            return False
+        if not self.real.buffers:
+            self.nb += 1
+            self.emit({"op": "buffer", "name": f"B{self.nb}", "concurrent": rng.random() < 0.3,
+                       "initial": rng.choice([5, 10, 10, 20])})
+            if not self.real.buffers:
+                return False
+        bn = rng.choice(list(self.real.buffers))
+        buf = self.real.buffers[bn]
+        order = ["loadBuffer", "unloadBuffer"] if rng.random() < 0.5 else ["unloadBuffer", "loadBuffer"]
+        t1, t2 = rng.sample(ts, 2)
+        for kind, t in zip(order, (t1, t2)):
+            have = buf._loading_tasks if kind == "loadBuffer" else buf._unloading_tasks
+            if not have:
+                q = rng.choice([1, 2, 3]) if kind == "loadBuffer" else rng.choice([2, 3, 4, 5])
+                self.emit({"op": "constraint", "c": (kind, t, bn, q)})
+        self.emit({"op": "indicator", "i": (rng.choice(["minBuffer", "minBuffer", "maxBuffer"]), bn)})
+        return True
+
     def g_ind(self):
         rng = self.rng
         ts = self.tasks()
+        if rng.random() < 0.07 and self.buffer_extremum():
+            return
         with_due = [t for t in ts if self.real.tasks[t].due_date is not None]
         res = self.plain_workers() + list(self.real.cumuls)
         forms = []
@@ -717,8 +787,10 @@ class Gen:
             forms += [lambda: ("tardiness", sub), lambda: ("earliness", sub), lambda: ("nbTardy", sub),
                       lambda: ("maxLateness", sub)]
         if self.real.buffers:
-            b = rng.choice(list(self.real.buffers))
-            forms += [lambda: ("maxBuffer", b), lambda: ("minBuffer", b)]
+            # a buffer that is already loaded and unloaded first: its extrema range over every level
+            both = [n for n, bf in self.real.buffers.items() if bf._loading_tasks and bf._unloading_tasks]
+            b = rng.choice(both) if both and rng.random() < 0.8 else rng.choice(list(self.real.buffers))
+            forms += [lambda: ("maxBuffer", b), lambda: ("minBuffer", b)] * (3 if both else 1)
         if not forms:
             return self.g_task()
         self.emit({"op": "indicator", "i": rng.choice(forms)()})
